@@ -166,7 +166,35 @@ def rule_reuseinfo(ck: Check, repo: Repo) -> None:
                     n_sites += 1
                     extra = names - fields
                     r.instance(f"copy-site:{fq}:{sorted(names)}", None)
-                    if extra or any(kw.arg is None for kw in c.keywords):
+                    # `copy(**{attr: … for attr in NAMES …})`: the keys are the strings of a module-level tuple / list
+                    dyn_unknown = False
+                    for kw in c.keywords:
+                        if kw.arg is not None:
+                            continue
+                        keys = None
+                        v = kw.value
+                        if isinstance(v, ast.DictComp) and isinstance(v.key, ast.Name) and len(v.generators) == 1 \
+                                and isinstance(v.generators[0].target, ast.Name) and v.generators[0].target.id == v.key.id:
+                            src_it = v.generators[0].iter
+                            cand = [src_it.id] if isinstance(src_it, ast.Name) else []
+                            # a local set built from such a constant (`wanted = set(_CLOSEST_ATTRIBUTES)`)
+                            for st in ast.walk(f):
+                                if cand and isinstance(st, ast.Assign) and any(isinstance(t, ast.Name) and t.id == cand[0] for t in st.targets):
+                                    cand += [n.id for n in ast.walk(st.value) if isinstance(n, ast.Name)]
+                            mod = repo.module_of(f)
+                            for nm in cand:
+                                for st in mod.tree.body:
+                                    if isinstance(st, ast.Assign) and any(isinstance(t, ast.Name) and t.id == nm for t in st.targets) \
+                                            and isinstance(st.value, (ast.Tuple, ast.List)) and all(isinstance(e, ast.Constant) and isinstance(e.value, str) for e in st.value.elts):
+                                        keys = {e.value for e in st.value.elts}
+                        if keys is None:
+                            dyn_unknown = True
+                        else:
+                            extra |= keys - fields
+                    if dyn_unknown and not extra:
+                        ck.defer(AnalysisError(f"{fq}: ReuseInfo.copy(**…) with keys that cannot be read from the source: whether they are fields is not decided"))
+                        continue
+                    if extra:
                         r.violation(fq, f"ReuseInfo.copy with unknown field {sorted(extra)}", "raises KeyError at run time", repo.loc(c))
     r.floor(5, "ReuseInfo.copy call sites", got=n_sites)
 
